@@ -174,25 +174,40 @@ impl Oplog {
                     // carrying the other header bit are leftovers that a flush had already
                     // folded into the header when the process died before truncating them.
                     let current_header_bit = outcome.oplog.get_current_header_bit();
-                    let entries_total_length = entries_buff.len();
+                    let mut sizes: Vec<usize> = Vec::new();
                     while let Some(entry_outcome) = Self::validate_leader(entries_buff)? {
                         if entry_outcome.header_bit != current_header_bit {
                             break;
                         }
+                        let length_before = entries_buff.len();
                         let res = Entry::decode(entry_outcome.state)?;
                         entries.push(res.0);
                         entries_buff = res.1;
                         partials.push(entry_outcome.partial_bit);
+                        sizes.push(length_before - entries_buff.len());
                     }
-                    // New entries must be appended after the ones already in the log.
-                    outcome.oplog.entries_length = entries.len() as u64;
-                    outcome.oplog.entries_byte_length =
-                        (entries_total_length - entries_buff.len()) as u64;
 
                     // Remove all trailing partial entries
                     while !partials.is_empty() && partials[partials.len() - 1] {
                         entries.pop();
                         partials.pop();
+                        sizes.pop();
+                    }
+
+                    // New entries must be appended after the ones already in the log.
+                    outcome.oplog.entries_length = entries.len() as u64;
+                    outcome.oplog.entries_byte_length = sizes.iter().sum::<usize>() as u64;
+
+                    // Like the Javascript implementation, cut off whatever follows the valid
+                    // entries (stale entries a flush did not get to truncate, a half-written
+                    // entry, an unfinished atomic batch). Left in place, such bytes can end up
+                    // directly behind entries written later and, if they carry the header bit
+                    // that is current by then, be replayed as if they belonged to the log.
+                    let entries_end = OplogSlot::Entries as u64 + outcome.oplog.entries_byte_length;
+                    if entries_end < existing.len() as u64 {
+                        outcome.infos_to_flush =
+                            vec![StoreInfo::new_truncate(Store::Oplog, entries_end)]
+                                .into_boxed_slice();
                     }
                     outcome.entries = Some(entries.into_boxed_slice());
                 }
